@@ -194,6 +194,17 @@ def parse_obligations():
         return '(>= %s 0)' % call
     obls = induction_obligations('L-TCNT-NONNEG', ['control.smt2', 'parse.smt2'], '(define-funs-rec ((tcnt ', nonneg)
     obls += induction_obligations('L-PECNT-NONNEG', ['control.smt2', 'parse.smt2'], '(define-fun-rec pecnt ', nonneg)
+    # the program dictionary (visitProgram): every clause's key is a key; keys are never duplicated
+    def cover(name, call, P):
+        return ('(forall ((j Int)) (=> (and (<= 0 j) (< j %s) ((_ is CDClause) (seq.nth %s j))) '
+                '(seq.contains %s (seq.unit (cakey (pgca %s j %s))))))' % (P['k'], P['p'], call, P['p'], P['n']))
+    obls += induction_obligations('L-PG-KEYS-COVER', ['control.smt2', 'parse.smt2'], '(define-fun-rec pgkeys ', cover)
+    obls += induction_obligations('L-PG-KEYS-NODUP', ['control.smt2', 'parse.smt2'], '(define-fun-rec pgkeys ',
+                                  lambda name, call, P: '(nodup %s)' % call,
+                                  extra_defs='(declare-fun nodup ((Seq PK)) Bool)\n(assert (nodup (as seq.empty (Seq PK))))\n'
+                                             '(assert (forall ((s (Seq PK)) (x PK)) (=> (and (nodup s) (not (seq.contains s (seq.unit x)))) '
+                                             '(nodup (seq.++ s (seq.unit x))))))')
+
     return obls
 
 
